@@ -36,6 +36,19 @@ Theorem C27_accepted_update_keeps_data_usable_partial :
 Proof. exact usable_preserved_b. Qed.
 Print Assumptions C27_accepted_update_keeps_data_usable_partial.
 
+(* Histories: along any chain of accepted updates P -> Q1 -> ... -> Qn (each step under the guards),
+   a value written under P that no later version removes with #removedType is usable across every
+   step and is still a well-formed stored value of the last version: every field the last version
+   declares is present with a value of the declared type, at any depth. *)
+Theorem C27_update_history_keeps_data_usable_partial :
+  forall acct xc F v l P,
+    chain_ok acct P l ->
+    (forall Q, In Q l -> mentions_removed Q v = false) ->
+    wf_value acct xc F P v = true ->
+    all_usable acct xc F P l v /\ wf_value acct xc F (last l P) v = true.
+Proof. intros; apply chain_preserved; auto. Qed.
+Print Assumptions C27_update_history_keeps_data_usable_partial.
+
 (* ------------------------------------------------------------------ witnesses *)
 Definition nC : name := 100.   Definition nS : name := 101.
 Definition nI : name := 102.   Definition nJ : name := 103.
@@ -165,3 +178,24 @@ Example C27_ex_rejections :
   /\ map uerr_code (validate [] (root [] [E [nc1; nc2]]) (root [] [E [nc2; nc1]])) = [(10, nc1, nc2); (10, nc2, nc1)]
   /\ map uerr_code (validate [] (root [] [S [] []]) (root [] [])) = [(5, nS, 0)].
 Proof. vm_compute. repeat split. Qed.
+
+(* #removedType is a tombstone carried by every later version: the pragma cannot be dropped, and a
+   name it covers cannot be declared again - also when the immediately preceding version no longer
+   declares it (v1: struct S; v2: #removedType(S); v3: #removedType(S) + struct S {a: String}) *)
+Example C27_ex_removed_type_cannot_return :
+  let root prs nested := Program [] (Decl KContract nC [] nested [] [] prs None) in
+  let S1 := Decl KStruct nS [(na, TNom (bInt, []))] [] [] [] [] None in
+  let S3 := Decl KStruct nS [(na, TNom (bString, []))] [] [] [] [] None in
+  let R3 := Decl KResource nS [] [] [] [] [] None in
+  let I3 := Decl KStructIface nS [] [] [] [] [] None in
+  let A3 := Decl KAttachment nS [] [] [] [] [] (Some (nT, [])) in
+  validate [] (root [] [S1]) (root [PRemoved nS] []) = []
+  /\ map uerr_code (validate [] (root [PRemoved nS] []) (root [PRemoved nS] [S3])) = [(7, nS, 0)]
+  /\ map uerr_code (validate [] (root [PRemoved nS] []) (root [PRemoved nS] [S1])) = [(7, nS, 0)]
+  /\ map uerr_code (validate [] (root [PRemoved nS] []) (root [PRemoved nS] [R3])) = [(7, nS, 0)]
+  /\ map uerr_code (validate [] (root [PRemoved nS] []) (root [PRemoved nS] [I3])) = [(7, nS, 0)]
+  /\ map uerr_code (validate [] (root [PRemoved nS] []) (root [PRemoved nS] [A3])) = [(7, nS, 0)]
+  /\ map uerr_code (validate [] (root [PRemoved nS] []) (root [] [S3])) = [(8, nS, 0)]
+  /\ map uerr_code (validate [] (root [PRemoved nS] []) (root [] [])) = [(8, nS, 0)].
+Proof. vm_compute. repeat split. Qed.
+
